@@ -257,6 +257,9 @@ def gen_world(rs: int, P: dict) -> dict:
         "signals": wchoice(rsim, P["signals"]),
         "shuffle_events": rsim.randint(0, 10 ** 6),
     }
+    ryr = sub(rs, "extreme_year")
+    if ryr.random() < 0.03:
+        sim["start"][0] = ryr.choice([1600, 2300, 9000])      # far outside the range a nanosecond timestamp can hold
     rsec = sub(rs, "start_seconds")
     if rsec.random() < 0.15:
         sim["start"] = sim["start"] + [rsec.choice([0, 1, 30, 59]), rsec.choice([0, 1, 500000, 999999])]   # seconds, microseconds
@@ -608,7 +611,7 @@ def gen_faults(rs, sc, P):
                 f["variant"] = rf.choice(["plus1", "one_short", "last_long", "empty_row", "first_long_rest_one"])
             elif kind == "beyond_horizon":
                 f["extra_len"] = rf.randint(1, 6)
-            elif kind == "invalid_pilot":
+            elif kind in ("invalid_pilot", "future_invalid"):
                 f["pick"] = rf.randint(0, 10 ** 6)
             out.append(f)
     # at most one fault of any kind per call index (crash may repeat on the next index)
